@@ -34,7 +34,8 @@ class Crate:
         return ['rustc', '--crate-name', 'top', '--crate-type', 'lib', '--edition=2021', '--emit=dep-info,metadata,link', '-C', 'metadata=abc', '-C', 'extra-filename=-abc',
                 'src/lib.rs', '--out-dir', 'out'] + cfg + ext + self.native_form.split() + ['-l', 'static=answer']
 
-ENV_SCRIPT = [('CARGO_REGISTRIES_ALT_INDEX', 'a'), ('CARGO_REGISTRIES_ALT_INDEX', 'bbb'), ('CARGO_REGISTRIES_ALT_INDEX', None), ('CARGO_PKG_NAME', 'x'), ('CARGO_PKG_NAME', 'yy'), ('MYVAR', 'zzzz')]
+ENV_SCRIPT = [('CARGO_REGISTRIES_ALT_INDEX', 'a'), ('CARGO_REGISTRIES_ALT_INDEX', 'bbb'), ('CARGO_REGISTRIES_ALT_INDEX', None), ('CARGO_PKG_NAME', 'x'), ('CARGO_PKG_NAME', 'yy'), ('MYVAR', 'zzzz'),
+              ('MYVAR', 'profile=release;rev=1a2b'), ('MYVAR', 'profile=release;rev=3c4d')]      # a value with '=' in it, changing behind the first '='
 
 def run(root, tag, seed, n_req, script=()):
     rng = random.Random(seed); c = Crate(root, tag); fails = []; trace = []; reqs = hits = misses = 0; seen = set()
@@ -55,7 +56,7 @@ def run(root, tag, seed, n_req, script=()):
                 e = dict(c.env)
                 if forced: (e.pop(var, None) if forced[1] is None else e.__setitem__(var, forced[1]))
                 elif var != 'MYVAR' and var in e and rng.random() < 0.3: del e[var]
-                else: e[var] = 'v' * rng.randrange(1, 6)
+                else: e[var] = 'v' * rng.randrange(1, 6) if rng.random() < 0.6 else 'k=' + 'w' * rng.randrange(1, 6)
                 c.env = e; note = f'change {var} read by the crate'
             elif k == 3: c.cfgs = ['feature="y"'] if 'feature="x"' in c.cfgs else ['feature="x"', 'feature="y"']
             elif k == 4: c.write('deps/dep.rs', 'pub fn d() -> u32 { %d }\n' % rng.randrange(6, 99)); c.build_dep()
